@@ -39,6 +39,11 @@ CHECKS = {
    text="Seeded texts with whitespace runs and 4-14 known selections (nested, crossing, adjacent, zero-width, touching both ends, both halves); references are single selections, their annotations and sets of 2-3 selections; each of the 92 operator/modifier variants is searched through ResultTextSelection, ResultItem<Annotation>, ResultTextSelectionSet and ResultItem<TextResource> related_text and compared as a multiset with the brute-force answer. Held on the geometries observed.",
    note="Trusted: the library's own test()/test_set() as oracle (judged by C13). References are bound selections. RELATION constraints in queries are exercised in C08.",
    ref="5/C06"),
+ "C07": dict(
+   technique="runtime oracle monitor: differential against plain-string references (std match_indices/split/trim_matches, the regex crate run directly on the slice, with the reference's own byte-to-codepoint conversion) for every search/split/trim/segmentation entry point on whole resources and sub-selections, every iterator capped at reference length + 3 so non-termination is observed",
+   text="Seeded texts over ASCII, 1-4 byte codepoints and codepoints whose lower-casing changes length, with 0-5 known selections and milestone intervals 0/3/5/100; find_text, find_text_nocase, find_text_sequence, find_text_regex (1-4 expressions, capture groups, overlap on/off, precompiled set), split_text, trim_text(_with) on ResultItem<TextResource>, bound and unbound ResultTextSelection and ResultItem<TextSelection>, the store-wide searches over 2 resources, and segmentation/segmentation_in_range; results are compared with the reference as sequences of (begin, end, text), must carry the text really at those offsets, stay inside the searched range, and split/segmentation must partition it. Held on the inputs observed.",
+   note="Trusted: the reference functions in harness/src/c07.rs (std and regex crate). Not judged (undocumented): case-insensitive matches cutting through the lower-case expansion of one codepoint, sequence searches where greedy and backtracking readings differ, the position of an empty trim result.",
+   ref="5/C07"),
  "C10": dict(
    technique="runtime monitoring: exactly-once oracle over the event log (shadow model predicts which data handle every request must map to), dedup invariants on the live sets, index-vs-scan differential for every data search route, and an independent reference implementation of the documented DataOperator semantics on a value x operator cross product",
    text="Seeded histories of data insertions through datasets, insert_data and annotations (with/without ids, repeated key/value pairs) and removals of data and keys; after every operation the returned handles are compared with the model's exactly-once prediction, the live sets are scanned for duplicate id-less (key,value) items and duplicate keys, and key.data()/find_data/test_data/data_by_value are compared with a full scan; DataValue::test is compared with a reference written from the doc comments over 25 values x ~100 operators incl. nested Not/And/Or. Held on what was observed.",
